@@ -7,13 +7,13 @@ Local Open Scope Z_scope.
 Definition in32 (z : Z) : Prop := - 2 ^ 31 <= z < 2 ^ 31.
 
 (* programs in the domain of the positive theorem: every waiter waits for the same completed value [tgt]
-   (1 for CompletionEvent, 0 for Latch), latch operations only on a latch, count_down only by 1 *)
+   (1 for CompletionEvent, 0 for Latch), latch operations only on a latch *)
 Definition wf_op (tgt : Z) (o : op) : Prop :=
   match o with
   | ONotify v => in32 v
   | OWait v => v = tgt
   | OWaitFor v _ => v = tgt
-  | OCountDown n => n = 1 /\ tgt = 0
+  | OCountDown n => tgt = 0
   | OTryWait => True
   | OArrive => tgt = 0
   | OCompleted => True
@@ -28,7 +28,7 @@ Definition wf_pc (tgt : Z) (p : pc) : Prop :=
   | PBlocked v _ => v = tgt
   | PWoken v _ => v = tgt
   | PWfLoad0 v _ => v = tgt
-  | PCdSub n => n = 1 /\ tgt = 0
+  | PCdSub n => tgt = 0
   | PArrSub => tgt = 0
   | PResetStore => tgt <> 0
   | _ => True
@@ -121,6 +121,24 @@ Proof.
   - rewrite Z.mod_small in E by lia. lia.
 Qed.
 
+Lemma sub32_zero w n : in32 w -> sub32 w n = 0 -> w = wrap_s 32 n.
+Proof.
+  unfold sub32, in32. intros R E. pose proof (in32_wrap_s n) as Rn. unfold in32 in Rn.
+  set (m := wrap_s 32 n) in *. unfold wrap_s in E. replace (32 - 1) with 31 in E by lia.
+  assert (P : 2 ^ 32 = 2 * 2 ^ 31) by reflexivity.
+  assert (P31 : 0 < 2 ^ 31) by (apply pow2_pos; lia).
+  assert (M : (w - m + 2 ^ 31) mod 2 ^ 32 = 2 ^ 31) by lia.
+  destruct (Z_lt_le_dec (w - m + 2 ^ 31) 0) as [L|L].
+  - assert (E2 : (w - m + 2 ^ 31) mod 2 ^ 32 = w - m + 2 ^ 31 + 2 ^ 32).
+    { symmetry. apply Z.mod_unique with (q := -1); lia. }
+    lia.
+  - destruct (Z_lt_le_dec (w - m + 2 ^ 31) (2 ^ 32)) as [L2|L2].
+    + rewrite Z.mod_small in M by lia. lia.
+    + assert (E2 : (w - m + 2 ^ 31) mod 2 ^ 32 = w - m + 2 ^ 31 - 2 ^ 32).
+      { symmetry. apply Z.mod_unique with (q := 1); lia. }
+      lia.
+Qed.
+
 Lemma sub32_pos w : in32 w -> 1 < w -> sub32 w 1 <> 0.
 Proof. intros R L E. apply sub32_one in E; [lia | exact R]. Qed.
 
@@ -205,11 +223,11 @@ Section Step.
       + apply nolost_same_word with (th := th); auto; fin P.
       + apply Forall_set_nth; [exact F | apply wf_next; exact Wo].
       + apply nolost_same_word with (th := th); auto; fin P.
-    - (* PCdSub *) destruct Wp as [-> T0]. destruct (word s =? 1) eqn:Ew; injection E as <- _ _; (split; [apply sub32_in32|]); split.
+    - (* PCdSub *) pose proof Wp as T0. destruct (word s =? wrap_s 32 n) eqn:Ew; injection E as <- _ _; (split; [apply sub32_in32|]); split.
       + apply Forall_set_nth; [exact F | apply wf_goto; cbn; [apply in32_0 | exact Wo]].
       + eapply nolost_pending; eauto. cbn. auto.
       + apply Forall_set_nth; [exact F | apply wf_next; exact Wo].
-      + apply nolost_other_word. rewrite T0. intros Z0. apply sub32_one in Z0; [|exact Rw]. apply Z.eqb_neq in Ew. contradiction.
+      + apply nolost_other_word. rewrite T0. intros Z0. apply sub32_zero in Z0; [|exact Rw]. apply Z.eqb_neq in Ew. contradiction.
     - (* PTwLoad *) injection E as <- _ _. split; [exact Rw|]. split.
       + apply Forall_set_nth; [exact F | apply wf_next; exact Wo].
       + apply nolost_same_word with (th := th); auto; fin P.
@@ -280,27 +298,12 @@ Proof.
   subst th'. exists kind. reflexivity.
 Qed.
 
-(* ---------- the refutation: Latch::count_down(n) with n > 1 reaching zero ---------- *)
-Definition refute_progs : list (list op) := [[OWait 0]; [OCountDown 3]].
-Definition refute_sched : list Z := [0; 0; 0; 1; 1].
+(* ---------- regression witness of the former defect (fixed in /repo by "fix: Latch::count_down(n) ...") ----------
+   Latch l(3); a waiter parked in wait(); count_down(3): with the repaired comparison the waiter is released. *)
+Definition former_witness_progs : list (list op) := [[OWait 0]; [OCountDown 3]].
+Definition former_witness_sched : list Z := [0; 0; 0; 1; 1; 0; 0; 0; 0; 0; 0; 0; 0; 0; 0].
 
-Lemma refuted_run :
-  let '(s, tr, st) := run_event 10 3 false refute_progs refute_sched in
-  st = SDeadlock /\ word s = 0 /\ map tpc (threads s) = [PBlocked 0 0; PDone].
-Proof. vm_compute. repeat split; reflexivity. Qed.
-
-Lemma refuted_reach :
-  exists s, reach step (init 3 false refute_progs) s /\ word s = 0 /\
-            (forall th, In th (threads s) -> ~ is_pending th) /\
-            (exists th, In th (threads s) /\ tpc th = PBlocked 0 0).
-Proof.
-  pose proof (run_reach step cands finished 10 (init 3 false refute_progs) refute_sched [] _ (reach_refl step _)) as R.
-  pose proof refuted_run as Q. unfold run_event in Q.
-  destruct (run step cands finished 10 (init 3 false refute_progs) refute_sched []) as [[s tr] st]. cbn [fst] in R.
-  destruct Q as (_ & Hw & Hp).
-  exists s. split; [exact R|]. split; [exact Hw|].
-  destruct (threads s) as [|a [|b [|c r]]]; cbn in Hp; try discriminate.
-  injection Hp as Pa Pb. split.
-  - intros th [<-|[<-|[]]]; unfold is_pending; [rewrite Pa | rewrite Pb]; auto.
-  - exists a. split; [left; reflexivity | exact Pa].
-Qed.
+Lemma former_witness_completes :
+  let '(s, tr, st) := run_event 20 3 false former_witness_progs former_witness_sched in
+  st = SDone /\ word s = 0.
+Proof. vm_compute. split; reflexivity. Qed.
